@@ -90,6 +90,11 @@ def harnesses(ctx) -> List[H]:
     # dyadic float bounds with int values (float constant concrete)
     for kw, c in (("minimum", "0.5"), ("exclusiveMaximum", "2.0"), ("maximum", "-1.25")):
         hs += _triple(f"c01_num_{kw}_float", f"v: {SCALAR}", SCALAR_PRE, f'{{"type": "number", "{kw}": {c}}}', group="num", tier=T)
+    NF = "Union[int, float, bool]"
+    hs += _triple("c01_num_float_value_bounds", f"a: int, b: int, v: {NF}", ["finite_json(v)"], '{"type": "number", "minimum": a, "exclusiveMaximum": b}', group="num", timeout=60)
+    hs += _triple("c01_num_float_value_integer_type", f"a: int, v: {NF}", ["finite_json(v)"], '{"type": ["integer", "boolean"], "maximum": a}', group="num", timeout=60,
+                  covers="1.0 is NOT an integer (documented deviation); floats against an integer-typed schema")
+    hs += _triple("c01_num_float_value_const", f"c: int, v: {NF}", ["finite_json(v)"], '{"enum": [c, True]}', group="lit", timeout=60, covers="1.0 equals 1 under JSON equality, True does not")
     hs += _triple("c01_num_const", f"c: Union[int, bool, None], v: {SCALAR}", SCALAR_PRE, '{"const": c}', group="lit")
     hs += _triple("c01_num_enum", f"c1: Union[int, bool], c2: Union[int, bool, None], v: {SCALAR}", SCALAR_PRE,
                   '{"enum": [c1, c2]}', group="lit")
@@ -140,6 +145,17 @@ if f5: S0["multipleOf"] = m
                       tier=Q if an in ("false", "schema") else T)
         hs += _triple(f"c01_arr_typed_tuple_addl_{an}", f"m: int, v: {LV}", LPRE,
                       f'{{"type": "array", "items": [{{"minimum": m}}]{a}}}', group="arr", tier=T)
+    # boolean and empty sub-schemas in item positions
+    for nm, items in (("false", "False"), ("true", "True"), ("tuple_false", "[False]"), ("tuple_true_false", "[True, False]"), ("empty_obj", "{}")):
+        for an, addl in (("absent", None), ("false", "False"), ("schema", '{"maximum": m}')):
+            a = "" if addl is None else f', "additionalItems": {addl}'
+            for typed in (False, True):
+                t = '"type": "array", ' if typed else ""
+                hs += _triple(f"c01_arr_items_{nm}_addl_{an}{'_typed' if typed else ''}", f"m: int, v: {LV}", LPRE, f'{{{t}"items": {items}{a}}}', group="arr",
+                              tier=Q if (nm in ("false", "tuple_false") and an in ("absent", "schema") and not typed) else T, twins=(nm == "tuple_false" and an == "schema"))
+    hs += _triple("c01_obj_bool_members", f"b1: bool, b2: bool, b3: bool, v: {{DV}}".replace("{DV}", "Dict[str, int]"), DPRE,
+                  '{"properties": {"a": b1, "a b": True}, "patternProperties": {"b$": b2}, "additionalProperties": b3, "dependencies": {"class": b1}}', group="obj", timeout=90,
+                  covers="boolean sub-schemas as property / pattern / additional / dependency schemas")
     # additionalItems must be ignored when items is not a tuple
     hs += _triple("c01_arr_addl_without_tuple", f"m: int, v: {LV}", LPRE, '{"items": {"type": "integer"}, "additionalItems": False}', group="arr")
     hs += _triple("c01_arr_addl_no_items", f"v: {LV}", LPRE, '{"additionalItems": False}', group="arr", tier=T)
